@@ -183,8 +183,18 @@ func scPKI(r *Run) {
 	}
 	nameTypes := []certs.IDType{certs.TypeRaw, certs.TypeDNSName, certs.TypeIPv4Address, certs.TypeIPv6Address}
 	labels := []string{"alpha", "beta", "alpha.example", "10.0.0.1", ""}
+	// names are built the way callers build them: through the public constructors where one exists
+	mkName := func(t certs.IDType, label string) certs.Name {
+		switch t {
+		case certs.TypeRaw:
+			return certs.RawStringName(label)
+		case certs.TypeDNSName:
+			return certs.DNSName(label)
+		}
+		return certs.Name{Type: t, Label: []byte(label)}
+	}
 	drawName := func(key string) certs.Name {
-		return certs.Name{Type: nameTypes[r.Intn(key, len(nameTypes))], Label: []byte(labels[r.Intn(key, len(labels))])}
+		return mkName(nameTypes[r.Intn(key, len(nameTypes))], labels[r.Intn(key, len(labels))])
 	}
 	pause := func() {
 		switch r.Intn("pause", 5) {
@@ -283,6 +293,52 @@ func scPKI(r *Run) {
 		leaves = append(leaves, &pkiNode{lrec, l})
 		mark(lrec)
 	}
+	// validity windows that are NOT nested: an intermediate whose validity starts in the future with a
+	// leaf under it that is valid already (and the mirror image: a leaf that outlives its intermediate).
+	// The issuing functions never produce these; a CA key signs whatever window it is told to.
+	for q := 0; q < r.Intn("cfg", 3) && len(roots) > 0; q++ {
+		rt := roots[r.Intn("unnested", len(roots))]
+		now := time.Now()
+		ik := keys.GenerateNewSigningKeyPair()
+		var iFrom, iTo, lFrom, lTo time.Time
+		d := func(max int) time.Duration { return time.Duration(1+r.Intn("unnested", max)) * time.Second }
+		switch r.Intn("unnested", 3) {
+		case 0: // intermediate starts later than its leaf
+			iFrom = now.Add(d(100000))
+			iTo = iFrom.Add(d(1000000))
+			lFrom = now.Add(-d(1000))
+			lTo = iFrom.Add(d(500000))
+		case 1: // leaf outlives its intermediate
+			iFrom = now.Add(-d(1000))
+			iTo = now.Add(d(100000))
+			lFrom = now
+			lTo = iTo.Add(d(100000))
+		default: // both: the leaf's window strictly contains the intermediate's
+			iFrom = now.Add(d(50000))
+			iTo = iFrom.Add(d(50000))
+			lFrom = now.Add(-d(1000))
+			lTo = iTo.Add(d(50000))
+		}
+		z, err := certs.VerifIssueWindow(rt.obj, &certs.Identity{PublicKey: ik.Public, Names: []certs.Name{certs.RawStringName("unnested")}}, certs.Intermediate, iFrom, iTo)
+		if err != nil {
+			continue
+		}
+		certs.VerifSetKey(z, (*[32]byte)(&ik.Private))
+		zrec := newRec(fmt.Sprintf("unnested-int-under-%s", rt.rec.name), marshal(z), rt.rec)
+		allRecs = append(allRecs, zrec)
+		inters = append(inters, &pkiNode{zrec, z})
+		mark(zrec)
+		lk := newX25519()
+		l, err := certs.VerifIssueWindow(z, &certs.Identity{PublicKey: lk.Public, Names: []certs.Name{drawName("names")}}, certs.Leaf, lFrom, lTo)
+		if err != nil {
+			continue
+		}
+		lrec := newRec(fmt.Sprintf("unnested-leaf-under-%s", zrec.name), marshal(l), zrec)
+		allRecs = append(allRecs, lrec)
+		leaves = append(leaves, &pkiNode{lrec, l})
+		mark(lrec)
+		r.CountFault("cert-unnested-validity", 1)
+	}
 	if len(leaves) == 0 {
 		return
 	}
@@ -322,6 +378,7 @@ func scPKI(r *Run) {
 				continue
 			}
 			nQ++
+			now := now // (per query: a query may name its own verification time)
 			// trust store: subset of roots, sometimes stored intermediates, sometimes wrong-typed anchors
 			store := certs.Store{}
 			var stored []*certRec
@@ -376,27 +433,35 @@ func scPKI(r *Run) {
 				}
 			}
 			var name certs.Name
+			given := false // (the harness's own record of whether a name is requested, not Name.IsZero)
 			nameKind := r.Intn("q", 4)
 			switch nameKind {
 			case 0: // no name requested
 			case 1: // one the leaf carries
 				if leaf.parsed && len(leaf.names) > 0 {
 					n0 := leaf.names[r.Intn("q", len(leaf.names))]
-					name = certs.Name{Type: certs.IDType(n0[0][0]), Label: []byte(n0[1])}
+					name, given = mkName(certs.IDType(n0[0][0]), n0[1]), true
 				}
 			case 2: // same label, other type
 				if leaf.parsed && len(leaf.names) > 0 {
 					n0 := leaf.names[r.Intn("q", len(leaf.names))]
-					name = certs.Name{Type: certs.IDType(n0[0][0]) ^ 1, Label: []byte(n0[1])}
+					name, given = mkName(certs.IDType(n0[0][0])^1, n0[1]), true
 				}
 			default:
-				name = drawName("q")
+				name, given = drawName("q"), true
 			}
 			if leaf.obj == nil {
 				r.Probe("mutated-leaf-unparseable")
 				continue // the code under test cannot even be handed this certificate
 			}
 			opts := certs.VerifyOptions{Name: name}
+			// the caller may name the verification time; that also reaches instants the simulated clock has
+			// passed already (before a root or an intermediate became valid)
+			if len(instants) > 0 && r.Intn("q", 4) == 0 {
+				now = instants[r.Intn("q", len(instants))]
+				opts.CurrentTime = now
+				r.CountFault("explicit-verification-time", 1)
+			}
 			if presented != nil && presented.obj != nil {
 				opts.PresentedIntermediate = presented.obj
 			} else {
@@ -411,7 +476,7 @@ func scPKI(r *Run) {
 					why = "leaf is not of leaf type"
 					return
 				}
-				if !name.IsZero() {
+				if given {
 					match := false
 					for _, nm := range leaf.names {
 						if nm[0] == string([]byte{byte(name.Type)}) && nm[1] == string(name.Label) {
